@@ -113,7 +113,37 @@ pub fn run_function_budget<S: Src>(s: &mut S) {
     s.reached("c03.run_function_budget");
 }
 
+/// `Vm::run_function` on a script function that returns at once, entered with R instructions left:
+/// afterwards exactly the instructions the callback executed are gone from the run's budget
+/// (a nested run that re-armed the budget would leave more than R)
+pub fn run_function_draws_on_the_run_budget<S: Src>(s: &mut S) {
+    let mut rig = Rig::new(8, 4, 1 << 16);
+    let h = Handle::from_u32(5);
+    let mut a = Asm::new();
+    a.op(op::SCALAR_NIL).op(op::RETURN);
+    a.exit();
+    rig.prog.bytecode = a.bc;
+    rig.prog.labels.0.insert(h, Label::new(0)).unwrap();
+    let f = rig.vm.init_function(h, 0).unwrap().into_inner();
+    let prog: *const CaoCompiledProgram = &rig.prog;
+    rig.vm.verif_set_program(prog);
+    rig.vm.max_instr = 64;
+    let r = 5 + s.below(4) as u64;
+    rig.vm.remaining_iters = r;
+    reset_dispatch_count();
+    let res = rig.vm.run_function(Value::Object(f));
+    assert!(res.is_ok(), "C03.nested.callback_within_budget_completes");
+    let d = dispatch_count();
+    assert!(d >= 2 && d <= 3, "C03.nested.callback_instruction_count");
+    assert!(rig.vm.remaining_iters <= r - d, "C03.nested.callback_instructions_count_against_the_run_budget");
+    std::mem::forget(res);
+    std::mem::forget(rig);
+    s.reached("c03.run_function_draws_on_the_run_budget");
+}
+
 crate::harnesses! {
+    #[kani::stub(alloc::fmt::format, crate::stub_format)]
+    c03_run_function_draws_on_the_run_budget / 18 => run_function_draws_on_the_run_budget;
     #[kani::stub(alloc::fmt::format, crate::stub_format)]
     c03_run_function_budget / 18 => run_function_budget;
     #[kani::stub(alloc::fmt::format, crate::stub_format)]
